@@ -805,6 +805,9 @@ func (fr *Frame) enterLoop(head *ssa.BasicBlock, phis []*ssa.Phi, outside func(*
 	env.vars = entryVars
 	env.pre = pre
 	for i, inv := range spec.Invariants {
+		if inv.Assumed {
+			continue
+		}
 		g := fr.evalClause(env, inv)
 		if g != nil {
 			fr.oblige("invariant-entry", fmt.Sprintf("loop%d.%s", ord, clauseLabel(inv, i)), inv.Text, head.Instrs[0].Pos(), g)
@@ -969,6 +972,9 @@ func (fr *Frame) enterLoop(head *ssa.BasicBlock, phis []*ssa.Phi, outside func(*
 	env2.vars = vars
 	env2.pre = pre
 	for _, inv := range spec.Invariants {
+		if inv.Assumed {
+			fr.cx.trust(fmt.Sprintf("assumed at the head of loop %d of %s (data read from outside the verified state): %s", ord, fr.fn, inv.Text))
+		}
 		if g := fr.evalClause(env2, inv); g != nil {
 			fr.assume(g)
 		}
@@ -1123,6 +1129,9 @@ func (fr *Frame) backEdge(from, head *ssa.BasicBlock) {
 		}
 	}
 	for i, inv := range ls.spec.Invariants {
+		if inv.Assumed {
+			continue
+		}
 		if g := fr.evalClause(env, inv); g != nil {
 			fr.oblige("invariant-preserved", fmt.Sprintf("loop%d.%s", ls.ordinal, clauseLabel(inv, i)), inv.Text, from.Instrs[len(from.Instrs)-1].Pos(), g)
 		}
